@@ -28,6 +28,10 @@ import (
 
 func TestMain(m *testing.M) { pbt.Main(m, "C19") }
 
+// after this many failures that each cost a full 2 s guard a sweep stops: the
+// violations are recorded and the process has to finish inside its time box
+const maxSlowFailures = 6
+
 func TestProp(t *testing.T) {
 	defer pbt.Recover(t)
 	ensureStandIn()
@@ -79,9 +83,14 @@ func TestProp(t *testing.T) {
 			return
 		}
 		defer func() { closeScreen(s) }()
+		wedges := 0
 		evalKey := func(c KeyCase) error {
+			if wedges >= maxSlowFailures {
+				return nil
+			}
 			err := guardedErr(fullGuard, func() string { return fmt.Sprintf("key case %+v", c) }, func() error { return keyProp(s, c) })
 			if _, wedged := err.(*wedgeErr); wedged {
+				wedges++
 				s, _ = newLiveScreen() // never touch a wedged screen again
 			}
 			return err
@@ -104,7 +113,9 @@ func TestProp(t *testing.T) {
 				sw.Case(class == "dom" || class == "char", pbt.HashStr("key", name, string(rune('a'+m))), func() any { return c }, err, knownKey(c))
 			}
 		}
-		pbt.Exhaustive("keys: every name in tcell.WebKeyNames and in the harness' KeyboardEvent.key table x 16 modifier sets")
+		if wedges < maxSlowFailures {
+			pbt.Exhaustive("keys: every name in tcell.WebKeyNames and in the harness' KeyboardEvent.key table x 16 modifier sets")
+		}
 	}()
 
 	lap("keys")
@@ -127,11 +138,11 @@ func TestProp(t *testing.T) {
 		if sw.Skip() {
 			return
 		}
-		item := 0
+		item, wedges := 0, 0
 		for flags := 0; flags <= fullMouseFlags; flags++ {
 			for _, how := range mouseHows(flags) {
 				item++
-				if !sw.Mine(item) {
+				if !sw.Mine(item) || wedges >= maxSlowFailures {
 					continue
 				}
 				var s tcell.Screen
@@ -143,6 +154,7 @@ func TestProp(t *testing.T) {
 					})
 				}
 				if err := prep(); err != nil {
+					wedges++
 					c := MouseCase{Flags: flags, How: how}
 					sw.Case(true, pbt.HashStr("mouse-prep", how, string(rune('a'+flags))), func() any { return c }, err, nil)
 					continue
@@ -151,6 +163,9 @@ func TestProp(t *testing.T) {
 					for which := 0; which <= 3; which++ {
 						for m := 0; m < 8; m++ {
 							for pi, pos := range [][2]int{{0, 0}, {79, 23}, {17, 5}} {
+								if wedges >= maxSlowFailures {
+									continue
+								}
 								c := MouseCase{Flags: flags, How: how, Kind: kind, Which: which, Shift: m&1 != 0, Alt: m&2 != 0, Ctrl: m&4 != 0, X: pos[0], Y: pos[1]}
 								switch mouseExpect(c) {
 								case +1:
@@ -162,8 +177,9 @@ func TestProp(t *testing.T) {
 								}
 								err := guardedErr(fullGuard, func() string { return fmt.Sprintf("mouse case %+v", c) }, func() error { return mouseProp(s, c) })
 								if _, wedged := err.(*wedgeErr); wedged {
+									wedges++
 									if prep() != nil {
-										break
+										wedges = maxSlowFailures
 									}
 								}
 								sw.Case(mouseExpect(c) != 0, pbt.HashStr("mouse", how, kind, string(rune('a'+flags)), string(rune('a'+which)), string(rune('a'+m)), string(rune('a'+pi))), func() any { return c }, err, knownMouse(c))
@@ -174,7 +190,9 @@ func TestProp(t *testing.T) {
 				closeScreen(s)
 			}
 		}
-		pbt.Exhaustive("mouse: click/move callbacks x which 0..3 x 8 modifier sets x all 8 mouse-flag subsets (each enabled in every listed way)")
+		if wedges < maxSlowFailures {
+			pbt.Exhaustive("mouse: click/move callbacks x which 0..3 x 8 modifier sets x all 8 mouse-flag subsets (each enabled in every listed way)")
+		}
 	}()
 
 	lap("mouse")
@@ -189,13 +207,17 @@ func TestProp(t *testing.T) {
 		if sw.Skip() {
 			return
 		}
+		wedges := 0
 		for i, c := range modeCases() {
-			if !sw.Mine(i) {
+			if !sw.Mine(i) || wedges >= maxSlowFailures {
 				continue
 			}
 			c := c
 			pbt.Class("modes:" + c.Kind)
 			err := guardedErr(fullGuard, func() string { return fmt.Sprintf("mode case %+v", c) }, func() error { return modeProp(c) })
+			if _, wedged := err.(*wedgeErr); wedged {
+				wedges++
+			}
 			sw.Case(len(c.Hist) > 0, pbt.HashStr("mode", c.Kind, strings.Join(c.Hist, ","), c.Text, map[bool]string{true: "t", false: "f"}[c.Focused]), func() any { return c }, err, nil)
 		}
 	}()
@@ -212,8 +234,15 @@ func TestProp(t *testing.T) {
 		if sw.Skip() {
 			return
 		}
+		unknownFails := 0
 		for i, c := range lifeCases() {
 			if !sw.Mine(i) {
+				continue
+			}
+			if unknownFails >= maxSlowFailures {
+				// every further sequence would cost its 2 s guards as well; the
+				// violations are recorded, the run must stay inside its time box
+				pbt.Class("lifecycle:skipped-after-repeated-failures")
 				continue
 			}
 			c := c
@@ -222,10 +251,15 @@ func TestProp(t *testing.T) {
 				pbt.Class("lifecycle:all-calls-returned")
 			} else {
 				pbt.Class("lifecycle:failed")
+				if knownLife(err) == "" {
+					unknownFails++
+				}
 			}
 			sw.Case(len(c.Seq) >= 2, pbt.HashStr("life", strings.Join(c.Seq, ",")), func() any { return c }, err, knownLife)
 		}
-		pbt.Exhaustive("lifecycle: all 341 sequences over {Suspend, Resume, SetSize, Fini} of length 0..4")
+		if unknownFails < maxSlowFailures {
+			pbt.Exhaustive("lifecycle: all 341 sequences over {Suspend, Resume, SetSize, Fini} of length 0..4")
+		}
 	}()
 	lap("lifecycle")
 }
